@@ -1,6 +1,7 @@
 package main
 
 import (
+	"fmt"
 	"math"
 	"sort"
 
@@ -500,6 +501,38 @@ func init() {
 			}
 			cv, _ := wn.cover(cset)
 			c.emit(map[string]interface{}{"k": "coll", "z": wn.z, "each": each, "cover": cv, "nt": 1})
+		}
+		// (3b) values without a vertex (empty but not nil) at the shallowest zooms, alone and as members: nothing to cover,
+		// through the generic entry point as through the typed ones
+		for z := 0; z <= 3; z++ {
+			empties := []orb.Geometry{orb.MultiPoint{}, orb.LineString{}, orb.MultiLineString{}, orb.Ring{}, orb.Polygon{}, orb.MultiPolygon{}, orb.Collection{},
+				orb.MultiLineString{{}}, orb.Collection{orb.LineString{}, orb.MultiPoint{}}}
+			for _, g := range empties {
+				e := map[string]interface{}{"k": "coll", "z": z, "each": [][][2]int{}, "nt": 1}
+				setCurrent("tilecover.Geometry(empty)", fmt.Sprintf("%T %d", g, z))
+				var set, set2 maptile.Set
+				var err error
+				site := guard(func() {
+					set, err = tilecover.Geometry(g, maptile.Zoom(z))
+					set2, _ = tilecover.Collection(orb.Collection{g, orb.Collection{g}}, maptile.Zoom(z))
+				})
+				if site != "" {
+					c.emit(panicEvent("tilecover.Geometry(empty)", site, e))
+					continue
+				}
+				cv := [][2]int{}
+				for t := range set {
+					cv = append(cv, [2]int{int(t.X), int(t.Y)})
+				}
+				for t := range set2 {
+					cv = append(cv, [2]int{int(t.X), int(t.Y)})
+				}
+				if err != nil {
+					cv = append(cv, [2]int{-1, -1})
+				}
+				e["cover"] = cv
+				c.emit(e)
+			}
 		}
 		// (4) MergeUp: every subset of the 16 zoom-2 tiles (thorough) / a seeded 4096 of them (quick), every
 		// min zoom, plus seeded zoom-4 sets built from blocks; each repeated so that Go's map order varies
